@@ -875,14 +875,21 @@ fn judge(sh: &Shared, c: &Case, verbose: bool) {
     let old_obs = model_obs(c.old_serial, c.old);
     let refo = reference(&c.msgs, &old_obs);
     let real = run_real(c.old_serial, c.old, &c.msgs);
+    let det = c.part != "S";
     sh.stats.eval();
     LOCAL.with(|l| {
         let mut l = l.borrow_mut();
         l.runs += 1;
-        l.transitions += real.rec.consumed as u64 + 1;
         l.states.insert(obs_hash(&real.final_obs));
-        for s in &real.rec.snaps {
-            l.states.insert(obs_hash(s));
+        // (the packaging chosen by the real sender depends on the zone's
+        // HashMap order: keep it out of the deterministic counters)
+        if det {
+            l.transitions += real.rec.consumed as u64 + 1;
+            for s in &real.rec.snaps {
+                l.states.insert(obs_hash(s));
+            }
+        } else {
+            l.transitions += 1;
         }
     });
     let mut key = vec![];
@@ -891,7 +898,7 @@ fn judge(sh: &Shared, c: &Case, verbose: bool) {
         key.extend_from_slice(&(m.len() as u16).to_be_bytes());
         key.extend_from_slice(m);
     }
-    if c.msgs.len() >= 2 || c.fault.is_some() || real.final_obs != old_obs {
+    if det && (c.msgs.len() >= 2 || c.fault.is_some() || real.final_obs != old_obs) {
         sh.stats.distinct(fnv(&key));
     }
     let kind = c.label.split('/').next().unwrap_or("").to_string();
@@ -1130,6 +1137,9 @@ fn judge(sh: &Shared, c: &Case, verbose: bool) {
     }
     // --- diffs returned by apply()
     for (b, d, a) in &real.rec.diffs {
+        if !det {
+            break; // (record order of the real sender is not owned; the same check runs in part R)
+        }
         lcount("diffs-returned-by-updater");
         if let Some(k) = diff_mismatch(b, d, a) {
             let via = if real.rec.updates.contains(&"DeleteAll") { "axfr" } else { "ixfr" };
@@ -1859,7 +1869,6 @@ fn run_sender_case(sh: &Shared, ks: &[Kinds], rq: &SReq, verbose: bool) {
         println!("sender case: zones={ks:?} request={rq:?}");
         println!("  feedback {:?} errors {:?} messages {}", out.feedback, out.errors, out.msgs.len());
     }
-    LOCAL.with(|l| l.borrow_mut().transitions += out.msgs.len() as u64);
     // what the requester holds
     let client_idx = match rq.serial {
         Some(s) if s >= 1 && (s as usize) <= versions.len() => s as usize - 1,
@@ -1868,7 +1877,7 @@ fn run_sender_case(sh: &Shared, ks: &[Kinds], rq: &SReq, verbose: bool) {
     let client = &versions[client_idx];
     let client_obs = &all_obs[client_idx];
     let refo = reference(&out.msgs, client_obs);
-    lcount(&format!("S:{rname}:serial={:?}:messages={}:ref={:?}({})/{}", rq.serial.map(|s| if s == cur_serial { "current" } else if s == 0 { "unknown" } else { "older" }), out.msgs.len().min(3), refo.verdict, refo.reason, refo.xfr));
+    lcount(&format!("S:{rname}:serial={:?}:ref={:?}({})/{}", rq.serial.map(|s| if s == cur_serial { "current" } else if s == 0 { "unknown" } else { "older" }), refo.verdict, refo.reason, refo.xfr));
     if !out.errors.is_empty() {
         report(sh, &format!("C10|sender|{rname}|service-error"), &|| format!("response stream carries errors {:?}", out.errors), &cj);
         return;
@@ -1925,7 +1934,8 @@ fn sender_requests() -> Vec<SReq> {
         }
     }
     v.push(SReq { qtype: 252, serial: None, udp: true, limit: 512, compat: false });
-    for limit in [512u16, 150] {
+    // 512: every answer of the universe fits; 100: not even SOA SOA fits (order-independent outcomes)
+    for limit in [512u16, 100] {
         for serial in [0u32, 1, 2, 3] {
             v.push(SReq { qtype: 251, serial: Some(serial), udp: true, limit, compat: false });
         }
